@@ -29,11 +29,71 @@ def dominating_edges(cfg, block):
     return out
 
 
-def conditions(cfg, E, block):
+def materialised_bool(cfg, D):
+    """If block D switches on a bool temp that was *materialised* immediately before (`matches!(..)`, `a && b`, `a || b`
+    lower to const true/false stores in sibling blocks that all jump straight to D), return {True: [blocks storing true],
+    False: [blocks storing false]}, else None.  Freshness: every way into D comes from one of the storing blocks through
+    goto-only blocks, so the value tested is the one stored last (drop flags, which are stored far away, do not qualify)."""
+    body = cfg.body
+    t = body.blocks[D].term
+    if t.k != 'switch':
+        return None
+    from facts import Operand
+    o = Operand(t.d['d'])
+    if o.place is None or not o.place.is_local or body.lty(o.place.l) != 'bool':
+        return None
+    ds = cfg.defs.get(o.place.l, [])
+    if len(ds) < 2:
+        return None
+    out = {True: [], False: []}
+    R = set()
+    for (bi, i, st) in ds:
+        if i == 'call' or st.rv['k'] != 'use':
+            return None
+        ops = st.rv_operands()
+        if not ops or not ops[0].is_const:
+            return None
+        if bi == D:
+            return None
+        out[bool(ops[0].d.get('v'))].append(bi)
+        # follow the goto chain to D
+        x = bi
+        for _ in range(6):
+            R.add(x)
+            tx = body.blocks[x].term
+            if tx.k != 'goto':
+                return None
+            x = tx.d['t'] if 't' in tx.d else cfg.succ[x][0]
+            if x == D:
+                break
+        else:
+            return None
+    defblocks = {bi for (bi, _, _) in ds}
+    for p in cfg.pred[D]:
+        if p not in R:
+            return None
+    for x in R - defblocks:
+        if any(p not in R for p in cfg.pred[x]):
+            return None
+    return out
+
+
+def conditions(cfg, E, block, _depth=0):
     """list of (expr, truth) boolean-ish facts holding on entry to block: truth True means expr != 0 /
     for discriminants (expr, ('eq', v)) or (expr, ('ne', [v..]))"""
     out = []
     for (D, S, v, allvals) in dominating_edges(cfg, block):
+        if _depth < 4:
+            mb = materialised_bool(cfg, D)
+            if mb is not None:
+                tv = None
+                if v is None and allvals == [0]:
+                    tv = True
+                elif v is not None:
+                    tv = (v != 0)
+                if tv is not None and len(mb[tv]) == 1:
+                    # the tested value was stored by exactly one block: everything known there is known here
+                    out.extend(conditions(cfg, E, mb[tv][0], _depth + 1))
         e = E.switch_cond(cfg.body.blocks[D])
         if v is None:
             if allvals == [0]:
